@@ -14,7 +14,7 @@
      ones accepted). *)
 From Coq Require Import String.
 From PDV Require Import lib.Base gen.Gen_C08 model.C08_Steps model.C08_Builder
-     proof.C08_ListFacts proof.C08_PlanProof proof.C08_BuilderProof proof.C08_JointMain proof.C08_NjMain proof.C08_Skel proof.C08_StepSpec.
+     proof.C08_ListFacts proof.C08_PlanProof proof.C08_BuilderProof proof.C08_JointMain proof.C08_NjMain proof.C08_AllocIds proof.C08_Skel proof.C08_StepSpec.
 Local Open Scope Z_scope.
 
 (* ---- the checker is sound, for every region state, goal and plan ---- *)
@@ -53,6 +53,23 @@ Proof. intros r s H. apply check_safety_sound. apply nodup_stores_ND. exact H. Q
 Theorem C08_is_finish_sound :
   forall r s, nodup_stores (peers r) = true -> step_ids_nonzero s = true -> is_finish r s = true -> spec_done r s = true.
 Proof. intros r s H. apply is_finish_sound. apply nodup_stores_ND. exact H. Qed.
+
+(* ---- pending peers (a peer that has not caught up with its snapshot; reported by heartbeats): only IsFinish of the four
+        add steps reads them (is_finish_p; checked against the real IsFinish on regions with pending peers by the driver).
+        They can only DELAY a step: finishing with pending peers implies finishing without; a step held back by a pending
+        peer is an add step whose peer is already there, its precondition holds, nothing is sent again and ConfVerChanged
+        already counts it - the operator waits, no clause of C08 other than "finished right after the store applied the
+        command" is affected, and that one holds as soon as the peer leaves the pending list. ---- *)
+Theorem C08_pending_peers_only_delay :
+  (forall r s, is_finish_p [] r s = is_finish r s)
+  /\ (forall pend r s, is_finish_p pend r s = true -> is_finish r s = true)
+  /\ (forall pend r s, nodup_stores (peers r) = true -> is_finish r s = true -> is_finish_p pend r s = false ->
+        (exists st id, (s = AddPeer st id \/ s = AddLearner st id \/ s = AddLightPeer st id \/ s = AddLightLearner st id) /\ In id pend)
+        /\ check_safety r s = None /\ cmd_of_step r s = None /\ conf_ver_changed r s = 1).
+Proof.
+  split; [exact is_finish_p_nil|]. split; [exact is_finish_p_sound|].
+  intros pend r s H. apply pending_only_waits. apply nodup_stores_ND. exact H.
+Qed.
 
 (* ---- builder, exhaustive for up to 3 stores: all origin role vectors and leaders, all target role vectors
         and requested leaders (or none), all leader-admissibility vectors of the stores, joint consensus
@@ -151,6 +168,34 @@ Proof.
   - eapply builder_nonjoint_plan_ok_general_pf; eauto.
 Qed.
 
+(* ---- the "distinct peer ids" hypothesis, tied to PD's id allocator.  Obligation peer_ids_ok (proof/C08_Skel.v, regenerated
+        from every non-test file under server/): no call site outside the builder gives a NEW peer an id - it arrives with
+        Id 0 (op_unnamed) and prepareBuild takes b.cluster.AllocID().  Then every peer the plan adds carries the allocator's
+        answer for its store, and builder_plan_ok needs only: the allocator's answers are fresh and pairwise distinct. ---- *)
+Theorem C08_added_ids_are_allocated :
+  forall i b, nodup_stores (peers (i_region i)) = true ->
+    Forall (op_unnamed (pm_of_list (peers (i_region i)))) (i_ops i) -> prepared i = Some b ->
+    forall a, In a (b_add b) -> pid a = alloc_of (i_alloc i) (pstore a).
+Proof. intros i b H. apply added_ids_are_allocated. apply nodup_stores_ND. exact H. Qed.
+
+Theorem C08_builder_plan_ok_with_allocator :
+  forall i b ss kl kr,
+    nodup_stores (peers (i_region i)) = true ->
+    is_in_joint (i_region i) = false ->
+    (exists lp, get_store_peer (i_region i) (leader (i_region i)) = Some lp /\ prole lp = Voter) ->
+    NoDup (map pid (peers (i_region i))) ->                                          (* the region's peers have distinct ids *)
+    Forall (op_unnamed (pm_of_list (peers (i_region i)))) (i_ops i) ->               (* new peers arrive without id *)
+    prepared i = Some b ->
+    (forall st, ~ In (alloc_of (i_alloc i) st) (map pid (peers (i_region i)))) ->    (* AllocID never returns an id in use *)
+    (forall s1 s2, In s1 (map pstore (b_add b)) -> In s2 (map pstore (b_add b)) -> s1 <> s2 ->
+                   alloc_of (i_alloc i) s1 <> alloc_of (i_alloc i) s2) ->            (* ... nor the same id twice *)
+    build i = Built ss kl kr ->
+    plan_ok (goal_of b) (i_region i) ss = true.
+Proof.
+  intros i b ss kl kr H1 H2 H3 H4 H5 H6 H7 H8 H9. eapply C08_builder_plan_ok; eauto.
+  apply alloc_gives_distinct_ids; auto. apply nodup_stores_ND. exact H1.
+Qed.
+
 (* by C08_plan_ok_sound: every plan the builder model produces executes step by step with every clause of the property *)
 Corollary C08_builder_plans_execute_safely :
   forall i b ss kl kr,
@@ -180,6 +225,7 @@ Print Assumptions C08_plan_ok_sound.
 Print Assumptions C08_exec_plan_covers_steps.
 Print Assumptions C08_check_safety_sound.
 Print Assumptions C08_is_finish_sound.
+Print Assumptions C08_pending_peers_only_delay.
 Print Assumptions C08_builder_plan_ok_bounded.
 Print Assumptions C08_s16_repaired.
 Print Assumptions C08_demote_after_add_repaired.
@@ -189,3 +235,5 @@ Print Assumptions C08_builder_joint_plan_ok.
 Print Assumptions C08_builder_nonjoint_plan_ok.
 Print Assumptions C08_builder_plan_ok.
 Print Assumptions C08_builder_plans_execute_safely.
+Print Assumptions C08_added_ids_are_allocated.
+Print Assumptions C08_builder_plan_ok_with_allocator.
